@@ -69,13 +69,15 @@ def gen_history(rng, profile="mixed", nops=None):
             frozen = not frozen
             ops.append(["freeze"] if frozen else ["unfreeze"])
             continue
-        if profile == "fault" and rng.random() < 0.25:
-            ops.append(["arm", rng.choice([0, 0, 1, 1, 2, 3, 5])])
+        if profile == "fault" and rng.random() < 0.3:
             t2 = rng.choice(leaves)
-            ops.append(["set", t2, ["plain", rng.randint(-9, 9)]])
-            if rng.random() < 0.7:
-                ops.append(["disarm"])
-                ops.append(["set", t2, ["plain", rng.randint(-9, 9)]])
+            val = rng.randint(-9, 9)
+            for _rep in range(rng.choice([1, 1, 1, 2, 3])):          # several faulty updates in a row
+                ops.append(["arm", rng.choice([0, 0, 1, 1, 2, 2, 3, 4, 6])])
+                ops.append(["set", t2, ["plain", val]])
+            ops.append(["disarm"])
+            if rng.random() < 0.85:
+                ops.append(["set", t2, ["plain", val]])             # the fault-free repeat
             continue
         # containers that may be summed: the target is not inside, and (unless cycles are wanted)
         # every member ranks below the target
@@ -105,7 +107,7 @@ def gen_history(rng, profile="mixed", nops=None):
             funs += 1
             srcs = [rng.choice(pool)]
             ops.append(["regfun", f"fn{funs}", [t], srcs, [[t, ["bin", "+", ["ref", srcs[0]], ["const", rng.randint(1, 3)]]]]])
-        elif k < 0.93 and pool and profile not in ("flat",):
+        elif k < 0.93 and pool and profile not in ("flat", "fault"):
             funs += 1
             tg = [p for p in leaves if p != pool[0]][:]
             rng.shuffle(tg)
